@@ -131,29 +131,29 @@ var Late = world.T0.Add(8 * 24 * time.Hour)
 
 // Phase numbering: 0 invitation, 1 commits, 2 deals, 3 responses, 4 master key, 5 signing-ready.
 var phaseOfState = map[fsm.State]int{
-	spf.StateAwaitParticipantsConfirmations: 0,
-	dpf.StateDkgCommitsAwaitConfirmations:   1,
-	dpf.StateDkgDealsAwaitConfirmations:     2,
-	dpf.StateDkgResponsesAwaitConfirmations: 3,
-	dpf.StateDkgMasterKeyAwaitConfirmations: 4,
-	sif.StateSigningIdle:                    5,
-	sif.StateSigningAwaitPartialSigns:       5,
-	sif.StateSigningPartialSignsCollected:   5,
+	spf.StateAwaitParticipantsConfirmations:             0,
+	dpf.StateDkgCommitsAwaitConfirmations:               1,
+	dpf.StateDkgDealsAwaitConfirmations:                 2,
+	dpf.StateDkgResponsesAwaitConfirmations:             3,
+	dpf.StateDkgMasterKeyAwaitConfirmations:             4,
+	sif.StateSigningIdle:                                5,
+	sif.StateSigningAwaitPartialSigns:                   5,
+	sif.StateSigningPartialSignsCollected:               5,
 	sif.StateSigningPartialSignsAwaitCancelledByError:   5,
 	sif.StateSigningPartialSignsAwaitCancelledByTimeout: 5,
 }
 
 var cancelledStates = map[fsm.State]bool{
-	spf.StateValidationCanceledByParticipant:     true,
-	spf.StateValidationCanceledByTimeout:         true,
-	dpf.StateDkgCommitsAwaitCanceledByError:      true,
-	dpf.StateDkgCommitsAwaitCanceledByTimeout:    true,
-	dpf.StateDkgDealsAwaitCanceledByError:        true,
-	dpf.StateDkgDealsAwaitCanceledByTimeout:      true,
-	dpf.StateDkgResponsesAwaitCanceledByError:    true,
-	dpf.StateDkgResponsesAwaitCanceledByTimeout:  true,
-	dpf.StateDkgMasterKeyAwaitCanceledByError:    true,
-	dpf.StateDkgMasterKeyAwaitCanceledByTimeout:  true,
+	spf.StateValidationCanceledByParticipant:    true,
+	spf.StateValidationCanceledByTimeout:        true,
+	dpf.StateDkgCommitsAwaitCanceledByError:     true,
+	dpf.StateDkgCommitsAwaitCanceledByTimeout:   true,
+	dpf.StateDkgDealsAwaitCanceledByError:       true,
+	dpf.StateDkgDealsAwaitCanceledByTimeout:     true,
+	dpf.StateDkgResponsesAwaitCanceledByError:   true,
+	dpf.StateDkgResponsesAwaitCanceledByTimeout: true,
+	dpf.StateDkgMasterKeyAwaitCanceledByError:   true,
+	dpf.StateDkgMasterKeyAwaitCanceledByTimeout: true,
 }
 
 // DKGAlphabet builds the public-event alphabet of DESIGN A.1/§4-C05 for a lab.
